@@ -9,6 +9,7 @@ import (
 	"hash/fnv"
 	"os"
 	"runtime"
+	"runtime/debug"
 	"sort"
 	"strings"
 	"testing"
@@ -157,6 +158,14 @@ func SafeRun(p Prop, sc any, c *Ctx) (out Outcome) {
 		}
 	}()
 	return p.Run(sc, c)
+}
+
+// StackIfWanted returns the current stack when PQSIM_STACK is set (triage aid).
+func StackIfWanted() string {
+	if os.Getenv("PQSIM_STACK") == "" {
+		return ""
+	}
+	return "\n" + string(debug.Stack())
 }
 
 func panicFrame() string {
@@ -378,6 +387,7 @@ type WorkerResult struct {
 	Samples    []any          `json:"samples"`
 	WallS      float64        `json:"wall_s"`
 	CutShort   bool           `json:"cut_short"`
+	Done       bool           `json:"done"`
 	Variant    string         `json:"variant"`
 	LogHashes  map[int]string `json:"log_hashes,omitempty"`
 }
